@@ -628,7 +628,10 @@ def solve_file(res: Result, timeout=10.0, portfolio=PORTFOLIO, confirm_unsat=Tru
                 # reasoning (the in-process pruner is quantifier-free) on files cvc5 cannot read (lambdas): 64 obligations of C05
                 # getKerningGroups#own alone.  So the verdict only changes with PYVC_VACUITY_STRICT=1; by default the flag is
                 # REPORTED (Result.vacuous) for the evidence.
-                if os.environ.get("PYVC_VACUITY_STRICT", "0") == "1":
+                # .. except for contracts with seq_bridge=True: their positional bridge facts over ite-valued sequences have made
+                # z3's E-matching call FEASIBLE hypotheses unsat (selftest/solver_regress/z3_seq_bridge_ite_core.smt2, found by
+                # this probe on C06 colorGraph), so there the flag decides
+                if os.environ.get("PYVC_VACUITY_STRICT", "0") == "1" or (res.info or {}).get("seq_bridge"):
                     res.status = "unknown"
         if (dis is None and res.risky_pattern and str(res.solver).startswith("z3") and not res.second_opinion
                 and os.environ.get("PYVC_STRICT_RISKY", "1") != "0"):
